@@ -90,4 +90,41 @@ def enum_out_of_range_ubsan(case):
     return "not a valid value for type" in str(case.get("crash", ""))
 
 
-PREDICATES = {f.__name__: f for f in (optional_of_struct_with_vector, swap_part_over_aligned, enum_out_of_range_ubsan)}
+def has_nonfixed_bytes_field(case):
+    """some struct of the schema has a dynamic, limited or greedy bytes field (whose default value is the str '')"""
+    for d in _decls(case):
+        if d[0] == "struct":
+            for _, k, ft in d[2]:
+                if ft[0] == "byte" and k[0] in ("bound", "limited", "greedy"):
+                    return True
+    return False
+
+
+def counter_narrower_than_count(case):
+    """some counted array of the reached state holds more elements than its counter's type can represent"""
+    def walk(t, v):
+        if t[0] == "struct":
+            for (fname, k, ft), x in zip(t[2], v[1]):
+                if k[0] in ("bound", "limited"):
+                    st = t[2][k[-1]][2]
+                    if st[0] == "scalar" and len(x[1]) > S.srange(st[1])[1]:
+                        return True
+                if ft[0] in ("struct", "union"):
+                    if k[0] == "plain" and walk(ft, x):
+                        return True
+                    if k[0] == "opt" and x is not None and walk(ft, x[1]):
+                        return True
+                    if k[0] in ("fixed", "bound", "limited", "greedy") and any(walk(ft, e) for e in x[1]):
+                        return True
+        elif t[0] == "union":
+            at = t[2][v[1]][2]
+            return at[0] in ("struct", "union") and walk(at, v[2])
+        return False
+    try:
+        return walk(S.from_json(case["schema"]), S.value_from_json(case["state"]))
+    except Exception:
+        return False
+
+
+PREDICATES = {f.__name__: f for f in (optional_of_struct_with_vector, swap_part_over_aligned, enum_out_of_range_ubsan,
+                                        has_nonfixed_bytes_field, counter_narrower_than_count)}
